@@ -148,6 +148,11 @@ pub struct TlsWorld {
     pub write_fault: Option<(u64, u8)>,
     pub nwrite: u64,
     pub write_fault_hit: bool,
+    /// written bytes reach the client at flush() only
+    pub buffer_writes: bool,
+    pub unflushed: Vec<u8>,
+    /// reads that found written-but-unflushed bytes while the client had nothing more to send
+    pub reads_with_unflushed_output: u64,
     /// garbage to send instead of a ClientHello (malformed-input workloads)
     pub instead_of_hello: Option<Vec<u8>>,
     /// stop sending after this many raw client bytes (truncated ClientHello etc.)
@@ -193,6 +198,9 @@ impl TlsWorld {
             write_fault: None,
             nwrite: 0,
             write_fault_hit: false,
+            buffer_writes: false,
+            unflushed: vec![],
+            reads_with_unflushed_output: 0,
             instead_of_hello: None,
             raw_limit: None,
             close_notify: true,
@@ -355,6 +363,9 @@ impl Read for TlsTransport {
                 return Ok(0);
             }
             // the client is waiting for the server: nothing can ever arrive
+            if !w.unflushed.is_empty() {
+                w.reads_with_unflushed_output += 1;
+            }
             w.deadlock = true;
             return Err(io::Error::new(io::ErrorKind::TimedOut, "vmon: deadlock - server reads while TLS client awaits server bytes"));
         }
@@ -396,11 +407,20 @@ impl Write for TlsTransport {
             }
         }
         let n = buf.len().min(w.write_limit);
-        w.on_server_bytes(&buf[..n]);
+        if w.buffer_writes {
+            w.unflushed.extend_from_slice(&buf[..n]);
+        } else {
+            w.on_server_bytes(&buf[..n]);
+        }
         Ok(n)
     }
     fn flush(&mut self) -> io::Result<()> {
-        self.0.borrow_mut().tick();
+        let mut w = self.0.borrow_mut();
+        w.tick();
+        if !w.unflushed.is_empty() {
+            let b = std::mem::take(&mut w.unflushed);
+            w.on_server_bytes(&b);
+        }
         Ok(())
     }
 }
